@@ -791,3 +791,17 @@ func (w *World) RelationTxs(r *verifutil.Rng) []*Gen {
 	}
 	return out
 }
+
+// WasmDeployTx deploys a never-seen WASM code: the hand-assembled spender module (needs no debug imports) followed by a custom
+// section with random bytes (a valid module with a fresh code hash).
+func (w *World) WasmDeployTx(r *verifutil.Rng, from *Actor) *types.Transaction {
+	code := append([]byte{}, c15WasmCode[kSpender]...)
+	name := []byte("vrfy")
+	junk := r.Bytes(8)
+	code = append(code, 0x00, byte(1+len(name)+len(junk)), byte(len(name)))
+	code = append(code, name...)
+	code = append(code, junk...)
+	att := attachments.CreateDeployContractAttachment(common.Hash{}, code, r.Bytes(4))
+	pl, _ := att.ToBytes()
+	return w.TxGas(from, types.DeployContractTx, nil, nil, pl, 400000)
+}
